@@ -92,12 +92,12 @@ def replay_band(rec, ctx, np, precision=64):
             F = fw(f.copy(), Q, out, sh)
             back = bw(F, 1, shp, sh)
             msgs = []
-            if float(np.abs(F - exp).max()) > rel * float(np.abs(f).sum()):
-                msgs.append(('value', 'forward value differs from exact kernel by %.3g' % float(np.abs(F - exp).max())))
+            if float(core.maxabs(F - exp)) > rel * float(np.abs(f).sum()):
+                msgs.append(('value', 'forward value differs from exact kernel by %.3g' % float(core.maxabs(F - exp))))
             if not close(energy(F, np), E0, E0, rel * 10):
                 msgs.append(('energy', 'energy %.12g after transform, %.12g before' % (energy(F, np), E0)))
-            if back.shape != f.shape or float(np.abs(back - f).max()) > rel * 10 * float(np.abs(f).sum()):
-                msgs.append(('inverse', 'inverse(forward(f)) differs from f by %.3g' % (float(np.abs(back - f).max()) if back.shape == f.shape else -1)))
+            if back.shape != f.shape or float(core.maxabs(back - f)) > rel * 10 * float(np.abs(f).sum()):
+                msgs.append(('inverse', 'inverse(forward(f)) differs from f by %.3g' % (float(core.maxabs(back - f)) if back.shape == f.shape else -1)))
         except Exception as ex:
             msgs = [('raised', 'raised %s: %s' % (type(ex).__name__, ex))]
         ctx.replayed(1, key=('band', name, json.dumps(rec['args']), precision))
@@ -123,18 +123,18 @@ def replay_fft(rec, ctx, np, precision=64):
     msgs = []
     try:
         F = a(f.copy(), Q)
-        if F.shape != exp.shape or float(np.abs(F - exp).max()) > rel * float(np.abs(f).sum()):
+        if F.shape != exp.shape or float(core.maxabs(F - exp)) > rel * float(np.abs(f).sum()):
             msgs.append(('value', 'differs from exact kernel'))
         if not close(energy(F, np), E0, E0, rel * 10):
             msgs.append(('energy', 'energy %.12g after, %.12g before (Q=%s)' % (energy(F, np), E0, Q)))
         back = b(F, 1)
         padded = fttools.pad2d(f, Q=Q) if Q != 1 else f
-        if back.shape != padded.shape or float(np.abs(back - padded).max()) > rel * 10 * float(np.abs(f).sum()):
+        if back.shape != padded.shape or float(core.maxabs(back - padded)) > rel * 10 * float(np.abs(f).sum()):
             msgs.append(('inverse', 'inverse(forward(f)) is not the zero-padded f'))
         wa = P.Wavefront(f.copy(), .5, .25, space='pupil' if fwd else 'psf')
         wF = wa.focus(7., Q=Q) if fwd else wa.unfocus(7., Q=Q)
         wb = wF.unfocus(7., Q=1) if fwd else wF.focus(7., Q=1)
-        if float(np.abs(wF.data - exp).max()) > rel * float(np.abs(f).sum()) or float(np.abs(wb.data - padded).max()) > rel * 10 * float(np.abs(f).sum()):
+        if float(core.maxabs(wF.data - exp)) > rel * float(np.abs(f).sum()) or float(core.maxabs(wb.data - padded)) > rel * 10 * float(np.abs(f).sum()):
             msgs.append(('Wavefront', 'Wavefront.focus/unfocus differ from the function route'))
     except Exception as ex:
         msgs = [('raised', 'raised %s: %s' % (type(ex).__name__, ex))]
@@ -161,28 +161,28 @@ def replay_fs(rec, ctx, np, precision=64):
     try:
         for z, H, tag in ((z1, H1, 'z1'), (z2, H2, 'z2')):
             tf = P.angular_spectrum_transfer_function(shp, lam, dx, z)
-            if tf.shape != H.shape or float(np.abs(tf - H).max()) > (1e-9 if precision == 64 else 1e-3):
-                msgs.append(('tf', 'transfer function differs from exp(i pi phi) at z=%s by %.3g' % (z, float(np.abs(tf - H).max()) if tf.shape == H.shape else -1)))
+            if tf.shape != H.shape or float(core.maxabs(tf - H)) > (1e-9 if precision == 64 else 1e-3):
+                msgs.append(('tf', 'transfer function differs from exp(i pi phi) at z=%s by %.3g' % (z, float(core.maxabs(tf - H)) if tf.shape == H.shape else -1)))
             if shp[0] == shp[1]:
                 tfs = P.angular_spectrum_transfer_function(shp[0], lam, dx, z)
-                if float(np.abs(tfs - H).max()) > (1e-9 if precision == 64 else 1e-3):
+                if float(core.maxabs(tfs - H)) > (1e-9 if precision == 64 else 1e-3):
                     msgs.append(('tf-scalar', 'scalar samples form differs'))
         ref1 = np.fft.ifft2(np.fft.fft2(f) * H1)
         g1 = P.angular_spectrum(f.copy(), lam, dx, z1, Q=1)
-        if float(np.abs(g1 - ref1).max()) > rel * S:
-            msgs.append(('value', 'angular_spectrum differs from IDFT.H.DFT by %.3g' % float(np.abs(g1 - ref1).max())))
+        if float(core.maxabs(g1 - ref1)) > rel * S:
+            msgs.append(('value', 'angular_spectrum differs from IDFT.H.DFT by %.3g' % float(core.maxabs(g1 - ref1))))
         if not close(energy(g1, np), E0, E0, rel * 10):
             msgs.append(('energy', 'energy %.12g after, %.12g before' % (energy(g1, np), E0)))
         g0 = P.angular_spectrum(f.copy(), lam, dx, 0., Q=1)
-        if float(np.abs(g0 - f).max()) > rel * S:
+        if float(core.maxabs(g0 - f)) > rel * S:
             msgs.append(('zero', 'z=0 is not the identity'))
         gb = P.angular_spectrum(g1, lam, dx, -z1, Q=1)
-        if float(np.abs(gb - f).max()) > rel * 10 * S:
+        if float(core.maxabs(gb - f)) > rel * 10 * S:
             msgs.append(('undo', 'propagating by -z does not undo z=%s' % z1))
         g12 = P.angular_spectrum(g1, lam, dx, z2, Q=1)
         gs = P.angular_spectrum(f.copy(), lam, dx, z1 + z2, Q=1)
         ref12 = np.fft.ifft2(np.fft.fft2(f) * H12)
-        if float(np.abs(g12 - gs).max()) > rel * 10 * S or float(np.abs(gs - ref12).max()) > rel * S:
+        if float(core.maxabs(g12 - gs)) > rel * 10 * S or float(core.maxabs(gs - ref12)) > rel * S:
             msgs.append(('compose', 'z1 then z2 differs from z1+z2 (%s, %s)' % (z1, z2)))
         # padded route: energy unchanged, result = propagation of the zero-padded field
         gq = P.angular_spectrum(f.copy(), lam, dx, z1, Q=2)
@@ -191,7 +191,7 @@ def replay_fs(rec, ctx, np, precision=64):
         # explicit transfer function and Wavefront form
         gt = P.angular_spectrum(f.copy(), lam, dx, float('nan'), Q=1, tf=H1)
         w = P.Wavefront(f.copy(), lam, dx).free_space(dz=z1, Q=1)
-        if float(np.abs(gt - ref1).max()) > rel * S or float(np.abs(w.data - ref1).max()) > rel * S or w.dx != dx:
+        if float(core.maxabs(gt - ref1)) > rel * S or float(core.maxabs(w.data - ref1)) > rel * S or w.dx != dx:
             msgs.append(('forms', 'tf= / Wavefront.free_space forms differ'))
     except Exception as ex:
         msgs = [('raised', 'raised %s: %s' % (type(ex).__name__, ex))]
